@@ -55,6 +55,7 @@ pub enum Sub {
     MarkBase {
         mark_cov: Vec<u16>,
         base_cov: Vec<u16>,
+        #[allow(dead_code)]
         class_count: u16,
         marks: Vec<(u16, Anchor)>,
         bases: Vec<Vec<Option<Anchor>>>,
